@@ -152,10 +152,23 @@ def ensure_driver():
         raise HarnessError("cannot build the Lean driver:\n" + out[-4000:])
 
 
-def run_driver(lines, timeout=900):
+GENDRIVER = os.path.join(LEAN, ".lake", "build", "bin", "fteikgen")
+
+
+def ensure_gendriver():
+    """the driver of the kernels translated from /repo's source (Tie C); a build failure is a
+    broken tie of the properties that use it, not a harness failure"""
+    ok, out = lake_build(["fteikgen"])
+    if not ok or not os.path.exists(GENDRIVER):
+        return False, out
+    return True, out
+
+
+def run_driver(lines, timeout=900, exe=None):
     """Pipe request lines to the compiled Lean model driver, return answer lines."""
-    ensure_driver()
-    p = subprocess.run([DRIVER], input="\n".join(lines) + "\n", capture_output=True, text=True,
+    if exe is None:
+        ensure_driver()
+    p = subprocess.run([exe or DRIVER], input="\n".join(lines) + "\n", capture_output=True, text=True,
                        timeout=timeout)
     if p.returncode != 0:
         raise HarnessError("driver failed: " + p.stderr[-2000:])
